@@ -341,7 +341,7 @@ class Check(core.PropertyCheck):
         # the case table in both directions (replies explored after a plain query), then histories over two ids
         table = ctx.model_check(self.MODEL, self.model_constants(ctx.tier), dump=True, tag="_table")
         hist = ctx.model_check(self.MODEL, {"QRows": few, "RRows": few, "Ids": frozenset({1, 2}),
-                                            "MaxMsgs": 4 if ctx.quick else 6, "Transports": trs, "ReplyAfter": few},
+                                            "MaxMsgs": 4 if ctx.quick else 5, "Transports": trs, "ReplyAfter": few},
                                dump=True, tag="_hist")
         return [table, hist]
 
